@@ -456,10 +456,13 @@ class EndProg:
         self.contline = ""
 
 
-def next_statement(state: TokenizerState) -> Generator[TokenInfo, None, bool | None]:
+def next_statement(
+    state: TokenizerState, readline: Callable[[], str] | None = None
+) -> Generator[TokenInfo, None, bool | None]:
     if not state.line:
         return False  # break parent loop
     column = alt_column = 0
+    first = 0  # the column measured in front of the first backslash (if that is not column 0)
     while state.pos < state.max:  # measure leading whitespace
         if state.line[state.pos] == " ":
             column += 1
@@ -469,9 +472,19 @@ def next_statement(state: TokenizerState) -> Generator[TokenInfo, None, bool | N
             alt_column += 1
         elif state.line[state.pos] == "\f":
             column = alt_column = 0
+        elif readline is not None and state.line[state.pos :] in ("\\\n", "\\\r\n"):
+            # a backslash right after the indentation: the logical line (and, as in CPython, the measuring) goes on
+            # with the next physical line; blanks in front of the first backslash decide unless there were none
+            first = first or column
+            state.move_next_line(readline)
+            if not state.line:
+                raise TokenError("EOF in multi-line statement", (state.lnum, 0))
+            continue
         else:
             break
         state.pos += 1
+    if first:
+        column = alt_column = first  # (CPython uses that column for both of its measures)
 
     if state.pos == state.max:
         return False  # break parent loop
@@ -717,7 +730,7 @@ def _scan_lines(state: TokenizerState, readline: Callable[[], str]) -> Iterator[
             yield from handle_end_progs(state)
 
         elif state.parenlev == 0 and not state.continued:  # new statement
-            loop_action = yield from next_statement(state)
+            loop_action = yield from next_statement(state, readline)
             if loop_action is True:
                 continue
             elif loop_action is False:
